@@ -141,7 +141,7 @@ def parse_model_output(text):
     res, cur = {}, None
     for line in text.split('\n'):
         if line.startswith('CASE '):
-            cur = dict(status=None, impls=[], err=None, digest=None)
+            cur = dict(status=None, impls=[], err=None, digest=None, stageA=None, strip=None)
             res[line[5:]] = cur
         elif cur is None:
             continue
@@ -159,6 +159,11 @@ def parse_model_output(text):
             cur['err'] = line[6:]
         elif line.startswith('D '):
             cur['digest'] = line[2:]
+        elif line.startswith('A\t'):
+            parts = line.split('\t')
+            cur['stageA'] = (parts[1], parts[2:] if parts[1] == 'OK' else (parts[2] if len(parts) > 2 else ''))
+        elif line == 'S' or line.startswith('S\t'):
+            cur['strip'] = line.split('\t')[1:]
     return res
 
 
